@@ -61,6 +61,8 @@ def _present_vars(call):
 def judge(op: L.Op, call, sp=None):
     """Model-free verdict on one call. Returns (key, what, info); key None = property holds."""
     k, what, info = _judge(op, call, sp)
+    if k is not None and not k.startswith("untyped-") and op.name == "Scan" and any(a != 0 for a in call["attrs"].get("scan_input_axes", [])):
+        k += ":nonzero-scan-input-axes"  # (a family of its own: the constructor slices axis 0 whatever the attribute says)
     return k, " ".join(what.split()), info
 
 
